@@ -464,6 +464,7 @@ class Unit:
             raise ExtractError('unit %s: rule %s in %s matched %d times, expected %s' % (self.name, name, fnref, n, expect))
         self.text = self.text[:bo] + seg + self.text[bc + 1:]
         self.rule_hits.append((name + '@' + self.fnkey(fnref), n))
+        return n
 
     # ----------------------------------------------------------- finalisation
     def finish(self, header, footer='} // verus!\nfn main() {}\n'):
